@@ -32,7 +32,7 @@ NOTE = ("Trusted: Lean 4.33.0 kernel; axioms ⊆ {propext, Classical.choice, Quo
         "the Rust harness, its law oracles and /verif/check; std/serde_json/toml semantics as listed in DESIGN.md §6; usize = 64 bit. ")
 TIE = {
  "C01": "validate_bytes, Token::{from_encoded,new,decoded}, the seven range `get` impls, 13 `Pointer` methods, `from_tokens` and the seven `PointerBuf` mutators",
- "C02": "validate_bytes, `validate` and the doors `Pointer::parse`, `PointerBuf::parse`, `TryFrom<&str>`, `TryFrom<String>`, `FromStr for PointerBuf` (the serde doors and `from_static` are not translated)", "C14": "validate_bytes, the `ParseError` accessors `offset` / `pointer_offset` / `source_offset` / `complete_offset` / `invalid_encoding_len` and `<ParseError as Diagnostic>::labels`", "C03": "Token::from_encoded, Token::new, Token::decoded",
+ "C02": "validate_bytes, `validate` and the doors `Pointer::parse`, `PointerBuf::parse`, `TryFrom<&str>`, `TryFrom<String>`, `FromStr for PointerBuf`, `Deserialize for PointerBuf` and the visitor of `Deserialize for &Pointer` (`from_static` is not translated)", "C14": "validate_bytes, the `ParseError` accessors `offset` / `pointer_offset` / `source_offset` / `complete_offset` / `invalid_encoding_len` and `<ParseError as Diagnostic>::labels`", "C03": "Token::from_encoded, Token::new, Token::decoded",
  "C04": "Pointer::{is_root,count,back,front,first,last,with_trailing_token,with_leading_token,concat}, `get(usize)`, PointerBuf::{from_tokens,push_back,push_front,append}, `Pointer::tokens` with `Tokens::next`, `Components::from` with `Components::next`", "C12": "the seven `PointerIndex::get` impls, split_front, split_at, split_back, parent",
  "C13": "Pointer::{starts_with,strip_prefix,ends_with,strip_suffix,intersection,is_root,split_at} and PointerBuf::append",
  "C16": "Index::from_str, Index::{for_len,for_len_incl,for_len_unchecked}, `Token::to_index` and both `TryFrom<Token>` impls",
@@ -45,7 +45,7 @@ TIE = {
  "C06": "the `expand` helper of `assign` (both backends), Index::from_str and Index::for_len_incl (`assign_value` itself is not translated)",
  "C07": "the `expand` helper of `assign` (both backends), Index::from_str and Index::for_len_incl (`assign_value` itself is not translated)",
  "C17": "the 17 hand-written `PartialEq` impls and the 15 `PartialOrd` impls between Pointer, &Pointer, PointerBuf, str, &str and String (one function per impl block)",
- "C18": "the `Display` impls of Token (decoded text), Pointer, PointerBuf (the text unchanged) and Index — `fmt` as the text written to the formatter; the serde impls and the `From`/`Into` conversions are not translated",
+ "C18": "the `Display` impls of Token (decoded text), Pointer, PointerBuf (the text unchanged) and Index — `fmt` as the text written to the formatter; `Serialize` for Pointer and PointerBuf (the string handed to the serializer), `Deserialize for PointerBuf` and the visitor of `Deserialize for &Pointer` (from a carrier holding one string); the `From`/`Into` conversions are not translated",
  "C19": "the token, range-slicing, splitting and prefix/suffix functions listed for C03, C12, C13, C04",
 }
 def tie_text(pid):
